@@ -45,12 +45,19 @@ func smuggled(id string, n int) []byte {
 }
 
 type msgGen struct {
-	e  *Env
-	nl string
-	b  bytes.Buffer
+	e       *Env
+	nl      string
+	b       bytes.Buffer
+	tailHdr string
 }
 
 func (g *msgGen) line(s string) {
+	if s == "" && g.tailHdr != "" {
+		// a header placed after the framing fields (the last one in the head)
+		t := g.tailHdr
+		g.tailHdr = ""
+		g.line(t)
+	}
 	g.b.WriteString(s)
 	nl := g.nl
 	if nl == "mixed" {
@@ -75,6 +82,14 @@ func chunkedEncode(e *Env, body []byte, variant string) []byte {
 			size += ";name=value"
 		case "ext-ws":
 			size += " ;x"
+		case "ext-lf":
+			if i == 0 {
+				size += ";x=\ny"
+			}
+		case "ext-lf-end":
+			if i == 0 {
+				size += ";x\n"
+			}
 		case "0x":
 			if i == 0 {
 				size = "0x" + size
@@ -116,6 +131,11 @@ func chunkedEncode(e *Env, body []byte, variant string) []byte {
 		b.WriteString("X-Trailer: 1\r\n")
 	case "bad-trailer":
 		b.WriteString("no colon here\r\n")
+	case "forbidden-trailer":
+		b.WriteString("Content-Length: 5\r\n")
+	case "request-trailer":
+		// a malformed trailer section shaped like a request
+		b.WriteString("GET /smuggled-trailer HTTP/1.1\r\nHost: x\r\n")
 	}
 	if variant == "lf-final" {
 		b.WriteString("\n")
@@ -129,13 +149,16 @@ func genC01Msg(e *Env, id string, canary bool) (desc string, out []byte) {
 	g := &msgGen{e: e, nl: "\r\n"}
 	if !canary {
 		g.nl = Pick(e, "\r\n", "\r\n", "\r\n", "\r\n", "\n", "mixed")
+		if e.Chance(25) {
+			g.tailHdr = Pick(e, "Connection: keep-alive", "Connection: keep-alive", "Connection: Keep-Alive, foo", "Connection: upgrade", "X-Last: 1")
+		}
 	}
 	if !canary && e.Chance(8) {
 		g.b.WriteString(Pick(e, "\r\n", "\n", "\r\n\r\n"))
 	}
 	kind := "get"
 	if !canary {
-		kind = Pick(e, "get", "cl", "cl", "chunked", "chunked", "adv", "adv", "adv", "adv", "head", "cl0")
+		kind = Pick(e, "get", "cl", "cl", "chunked", "chunked", "adv", "adv", "adv", "adv", "head", "cl0", "expect", "mp-epilogue")
 	}
 	ver := "HTTP/1.1"
 	if !canary && e.Chance(12) {
@@ -170,6 +193,24 @@ func genC01Msg(e *Env, id string, canary bool) (desc string, out []byte) {
 		hdr()
 		g.line("Content-Length: 0")
 		g.line("")
+	case "expect":
+		// the server answers 100 Continue by itself; the client sends the body anyway
+		g.line("POST " + target + " HTTP/1.1")
+		hdr()
+		g.line("Expect: 100-continue")
+		g.line(fmt.Sprintf("Content-Length: %d", len(body)))
+		g.line("")
+		g.b.Write(body)
+	case "mp-epilogue":
+		// a multipart body whose closing boundary is followed by an epilogue
+		// that looks like a request: all of it is inside Content-Length
+		mp := "--c01b\r\nContent-Disposition: form-data; name=\"f\"\r\n\r\nv\r\n--c01b--\r\n" + string(smuggled(id, Pick(e, 43, 86, 300, 5000)))
+		g.line("POST " + target + " " + ver)
+		hdr()
+		g.line("Content-Type: multipart/form-data; boundary=c01b")
+		g.line(fmt.Sprintf("Content-Length: %d", len(mp)))
+		g.line("")
+		g.b.WriteString(mp)
 	case "cl":
 		g.line(Pick(e, "POST", "PUT", "DELETE", "PATCH") + " " + target + " " + ver)
 		hdr()
@@ -189,7 +230,7 @@ func genC01Msg(e *Env, id string, canary bool) (desc string, out []byte) {
 		cls := Pick(e, "cl-dup-same", "cl-dup-diff", "cl-list-same", "cl-list-diff", "cl-plus", "cl-minus", "cl-overflow", "cl-padded", "cl-inner-space", "cl-hex", "cl-empty", "cl-trailing-junk",
 			"te10", "te-identity", "te-identity-cl", "te-gzip-chunked", "te-chunked-identity", "te-chunked-chunked", "te-dup-lines", "te-case", "te-xchunked", "te-chunked-gzip",
 			"cl-te", "te-cl", "cl-ws-colon", "te-ws-colon", "cl-fold", "te-fold", "cl-te-smaller",
-			"chunk-no-crlf-after-data", "chunk-lf-after-data", "chunk-junk-after-data", "chunk-0x", "chunk-huge", "chunk-plus", "chunk-ws-after", "chunk-ext-ws", "chunk-lf-size", "chunk-lf-final", "chunk-bad-trailer",
+			"chunk-no-crlf-after-data", "chunk-lf-after-data", "chunk-junk-after-data", "chunk-0x", "chunk-huge", "chunk-plus", "chunk-ws-after", "chunk-ext-ws", "chunk-lf-size", "chunk-lf-final", "chunk-bad-trailer", "chunk-ext-lf", "chunk-ext-lf-end",
 			"cl-lower", "te-tab")
 		desc = cls
 		clv := fmt.Sprintf("%d", len(body))
@@ -486,6 +527,11 @@ func c01Judge(e *Env, k *ServerKit, ci int, c c01Conn, ex *Exchange) {
 					return
 				}
 				return
+			}
+			if i < len(c.Descs) && c.Descs[i] == "mp-epilogue" {
+				// a pre-parsed multipart body is handed over as a form, not as
+				// the original bytes: only its boundaries are judged
+				continue
 			}
 			if !bytes.Equal(inv.Body, m.Body) {
 				if !e.Violation("body/"+construct, "conn %d: invocation %d (%s %s) got body %q, RFC 9112 framing gives %q", ci, i, inv.Method, inv.URI, clip(string(inv.Body), 120), clip(string(m.Body), 120)) {
